@@ -9,14 +9,14 @@ Import ListNotations.
 Open Scope Z_scope.
 
 (* The deadline after a callback that was armed for `due` finished at clock t and
-   returned true: the first boundary start + k*I that is later than the boundary
+   returned true: the first boundary start + k*iv that is later than the boundary
    just served and later than t (boundaries missed meanwhile are skipped).
    Interval 0 means "as soon as possible": armed at t. *)
-Definition next_due (start I due t : Z) : Z :=
-  if I =? 0 then t
-  else start + Z.max ((due - start) / I + 1) ((t - start) / I + 1) * I.
+Definition next_due (start iv due t : Z) : Z :=
+  if iv =? 0 then t
+  else start + Z.max ((due - start) / iv + 1) ((t - start) / iv + 1) * iv.
 
-Inductive tstate := TNone | TAlive (start I due : Z) | TDead.
+Inductive tstate := TNone | TAlive (start iv due : Z) | TDead.
 Definition is_alive (s : tstate) : bool := match s with TAlive _ _ _ => true | _ => false end.
 
 Record mstate := mk_mstate {
@@ -37,13 +37,13 @@ Definition no_alive (m : mstate) : bool :=
    dispatches a handle when  when < time() + clock_resolution). *)
 Definition mon_step (strict : bool) (res : Z) (m : mstate) (e : event) : option mstate :=
   match e with
-  | EvCreate i t I =>
-      if (m_clock m <=? t) && is_none (m_cur m) && (i =? m_count m)%nat && (0 <=? I) then
-        Some (mk_mstate t None (upd (m_st m) i (TAlive t I (t + I))) (m_ver m) (S (m_count m)))
+  | EvCreate i t iv =>
+      if (m_clock m <=? t) && is_none (m_cur m) && (i =? m_count m)%nat && (0 <=? iv) then
+        Some (mk_mstate t None (upd (m_st m) i (TAlive t iv (t + iv))) (m_ver m) (S (m_count m)))
       else None
   | EvTick i t due v =>
       match m_cur m, m_st m i with
-      | None, TAlive s I d =>
+      | None, TAlive s iv d =>
           if (m_clock m <=? t) && (due =? d) && (if strict then due <=? t else due - res <? t) && (v =? m_ver m i)%nat
           then Some (mk_mstate t (Some i) (m_st m) (m_ver m) (m_count m))
           else None
@@ -54,7 +54,7 @@ Definition mon_step (strict : bool) (res : Z) (m : mstate) (e : event) : option 
       | Some c =>
           if (c =? i)%nat && (m_clock m <=? t) then
             let s' := match m_st m i, o with
-                      | TAlive s I d, RetTrue => TAlive s I (next_due s I d t)
+                      | TAlive s iv d, RetTrue => TAlive s iv (next_due s iv d t)
                       | TAlive _ _ _, _ => TDead
                       | other, _ => other
                       end in
